@@ -203,7 +203,7 @@ fn main() {
             let n = args.get(2).and_then(|s| s.parse().ok()).unwrap_or(30_000);
             std::process::exit(pfv::selftest::run(&ctx, n));
         }
-        "digest-cases" => std::process::exit(props::procs::digest_cases(&args[2])),
+        "digest-cases" => std::process::exit(props::procs::digest_cases(&args[2], args.get(3).and_then(|s| s.parse().ok()).unwrap_or(0))),
         "replay" => {
             if args.len() < 3 {
                 usage();
